@@ -33,6 +33,9 @@ pub struct IoCtx {
     pub out_written: bool,
     /// builder B: the pending read fills a sub-slice `var[a..b]` of its buffer variable: the Lean terms of `a` and `b`
     pub pending_slice: Option<(String, String)>,
+    /// builder B: Lean names of the translated methods that take a caller's buffer (they answer `(value, buffer)`); a
+    /// translated method that CALLS one of them is refused (the write-back into the caller's own buffer is not modelled)
+    pub out_fns: Vec<String>,
 }
 
 pub fn is_io_fn(sig: &Signature) -> bool {
@@ -506,6 +509,19 @@ pub fn function_io(tr: &mut FnTr, sig: &Signature, body: &Block, lean_name: &str
     out.push_str(&format!("def {} {{σ : Type}} {} : Rt.Phy.IoM RadioError σ {} := ", lean_name, ps, inner.lean()));
     render_io(&seq, 1, &mut out);
     out.push('\n');
+    // builder B: LOUD, not silent: the bytes a helper delivers into a (slice of a) caller's buffer would have to be written
+    // back into this method's own variable; that is not modelled
+    {
+        let fns = tr.reg.io.borrow().out_fns.clone();
+        for f in fns.iter().filter(|f| f.as_str() != lean_name) {
+            if out.contains(&format!("({} ", f)) || out.contains(&format!(" {} ", f)) {
+                return Err(format!("call of {} (a method that fills a caller's `&mut [u8]` buffer) from a translated method is not supported", f));
+            }
+        }
+    }
+    if !out_bufs.is_empty() {
+        tr.reg.io.borrow_mut().out_fns.push(lean_name.to_string());
+    }
     Ok((out, FnSig { lean: lean_name.to_string(), params, ret, fallible: false, muts: vec![] }))
 }
 
